@@ -21,6 +21,9 @@ func init() {
 			ruleTightGuards(c, decodeBound(c.P), func(n string) bool { return strings.Contains(n, "JSON") })
 			c.Floor("X.tightguard", 8)
 			ruleRejects(c, decodeBound(c.P), func(n string) bool { return strings.Contains(n, "JSON") })
+			// what is sized is what is written (a value changed on the way out breaks the entry framing)
+			ruleSizeLaw(c)
+			ruleFrame(c)
 			c.Floor("X.rejects", 8)
 		},
 	})
